@@ -187,6 +187,20 @@ def run_single_case(case):
         return ('raise', '%s: %s' % (type(ex).__name__, str(ex)[:120]))
 
 
+def run_anchor_case(case):
+    vlib.use_repo()
+    import numdifftools as nd
+    pi, m, n, order, a = case
+    r = RECS[pi]
+    f = exprs.make_fun(r['prog'], r['c'][0] / r['c'][1], a)
+    try:
+        with np.errstate(all='ignore'):
+            v, info = nd.Derivative(f, n=n, method=m, order=order, full_output=True)(a)
+        return ('ok', float(np.real(v)), float(np.ravel(info.error_estimate)[0]))
+    except Exception as ex:
+        return ('raise', '%s: %s' % (type(ex).__name__, str(ex)[:120]))
+
+
 def run_multi_case(case):
     vlib.use_repo()
     import numdifftools as nd
@@ -255,6 +269,33 @@ def run(tier, rep):
                 rep.violation('dishonest:%s:n=%d' % (m, n), dict(prog=r['prog'], c=r['c'], a=a, method=m, n=n, order=order, step=[kind, sk], got=[v.real, v.imag], exact=exact, error_estimate=e, floor=floor),
                               '%s: |result - exact| = %.3g but error_estimate = %.3g (K = %g, floor %.3g)' % (name, err, e, K_HONEST, floor))
                 break
+    # anchors: on well-conditioned functions (exp, sin, cosh) the estimate ITSELF has to cover the error - no accuracy
+    # envelope is involved, only a rounding floor relative to the exact value (worst ratio observed: 5.5)
+    acases = []
+    for pi, r in enumerate(uniq):
+        if r['prog'] in [list(p) for p in c01.ANCHOR_PROGS] and r['c'][0] / r['c'][1] in (1.0, 3.0):
+            for m in ('central', 'forward', 'backward', 'complex', 'multicomplex'):
+                for n in range(1, c01.NMAX[m] + 1):
+                    if n <= len(r['jet']) - 1 and exprs.exact_derivative(r['jet'], n) != 0:
+                        for order in ((2, 3, 6) if tier == 'quick' else range(1, 9)):
+                            for a in (0.5, -2.0, 30.0):
+                                acases.append((pi, m, n, order, a))
+    nanchor, anchor_beyond, anchor_worst = 0, 0, 0.0
+    for (pi, m, n, order, a), o in zip(acases, vlib.pool_map(run_anchor_case, acases, chunksize=32)):
+        if o[0] != 'ok' or not np.isfinite(o[1]):
+            continue
+        r = uniq[pi]
+        exact = exprs.exact_derivative(r['jet'], n)
+        err, est = abs(o[1] - exact), o[2]
+        nanchor += 1
+        if err > 1e-12 * abs(exact):
+            anchor_beyond += 1
+            if (m, n) not in (('forward', 8), ('backward', 8)):
+                anchor_worst = max(anchor_worst, err / max(est, 1e-300))
+        if not (est >= 0 and err <= K_HONEST * est + 1e-12 * abs(exact)):
+            key = 'dishonest:anchor:%s:n=%d' % (m, n)
+            rep.violation(key, dict(prog=r['prog'], c=r['c'], a=a, method=m, n=n, order=order, got=o[1], exact=exact, error_estimate=est),
+                          'anchor %s @ c=%s a=%r | %s n=%d order=%d: |result - exact| = %.3g but error_estimate = %.3g' % ('.'.join(r['prog']), '/'.join(map(str, r['c'])), a, m, n, order, err, est))
     # single-estimate calls (scalar step)
     rnds = random.Random(seed + 3)
     scases = []
@@ -348,7 +389,7 @@ def run(tier, rep):
                samples=[dict(prog=uniq[12]['prog'], c=uniq[12]['c']), dict(pipeline=pres.records[100])], evaluations=nchk,
                distinct_nontrivial=len(ratios) + nrec // 2,
                rule='Pipeline: every (S<=26, rule length, Richardson terms, columns) exhaustively; replay: the C01 program/config sample (including cases outside the tame domain) and MC_Multi cases for Gradient/Jacobian/Hessdiag/Hessian; non-trivial = result beyond the accuracy floor (the estimate has to cover it)',
-               K=K_HONEST, K_stage=ENV['honesty']['K_stage'], stage_sequences=len(sres.records), selection_tables_replayed=nbest, single_estimate_calls=nsingle, single_estimate_zero_derivative=int(nzero), single_estimate_worst_ratio=single_worst, stage_worst_error_over_estimate=stage_worst, tlc=per)
+               K=K_HONEST, K_stage=ENV['honesty']['K_stage'], stage_sequences=len(sres.records), selection_tables_replayed=nbest, anchor_honesty_checks=nanchor, anchor_beyond_rounding=anchor_beyond, anchor_worst_error_over_estimate=anchor_worst, single_estimate_calls=nsingle, single_estimate_zero_derivative=int(nzero), single_estimate_worst_ratio=single_worst, stage_worst_error_over_estimate=stage_worst, tlc=per)
     assum = ['honesty bound |err| <= K*error_estimate + floor*sigma with K and floor from envelopes.json',
              'record clauses use public information only: info tuple, d.step(...) regenerated, rule length from the object\'s LogRule']
     return cov, assum
